@@ -471,3 +471,51 @@ package lexer
 //@   let syms map[string]TokenType = result0 after call Definition.Symbols#1
 //@   ensures foralls(s, has(syms, s) ==> has(result, syms[s]))
 //@   loop 1 invariant out != nil && fresh(out) && foralls(s, visited(1, s) ==> has(out, syms[s]))
+
+// ---------------------------------------------------------------------------------------------
+// stateful.go, JSON (C16): the "kind" written for an action and the action built for a "kind" are inverse; a rule
+// without action decodes to a rule without action; an action this package cannot name is refused, never dropped.
+// What encoding/json itself does with strings and struct fields is outside the contracts (bounded stand-in of C16).
+// ---------------------------------------------------------------------------------------------
+
+//@ spec fn actionKind(a Action) string = ite(typeis(a, ActionPush), "push", ite(typeis(a, ActionPop), "pop", ite(typeis(a, include), "include", "")))
+
+//@ func (*Rule).UnmarshalJSON [C16]
+//@   requires r != nil
+//@   modifies r.Name, r.Pattern, r.Action
+//@   let nm string = jrule.Name after call json.Unmarshal#1
+//@   let pat string = jrule.Pattern after call json.Unmarshal#1
+//@   let hasAction bool = jrule.Action != nil after call json.Unmarshal#1
+//@   let kind string = jaction.Kind after call json.Unmarshal#2 default ""
+//@   ensures result == nil ==> r.Name == nm && r.Pattern == pat
+//@   ensures @noAction result == nil && !hasAction ==> r.Action == nil
+//@   ensures @kindInverse result == nil && hasAction ==> actionKind(r.Action) == kind && (r.Action == nil <==> kind == "")
+//@   ensures @errClean result != nil ==> r.Action == nil || r.Action == old(r.Action)
+
+//@ func (*Rule).MarshalJSON [C16]
+//@   requires r != nil
+//@   ensures @refused result1 == nil ==> r.Action == nil || typeis(r.Action, ActionPop) || typeis(r.Action, ActionPush) || typeis(r.Action, include)
+//@   before call json.Marshal#1: assert v == iface(r.Action)
+//@   before call json.Marshal#2: assert has(jaction, "kind") && jaction["kind"] == iface(actionKind(r.Action)) && r.Action != nil
+//@   before call json.Marshal#3: assert jrule.Name == r.Name && jrule.Pattern == r.Pattern && (r.Action == nil ==> jrule.Action == nil)
+// encoding/json encodes a struct value as a JSON object and decodes an object into the (non-nil) map it is handed:
+//@   assume after call json.Unmarshal#1: (typeis(r.Action, ActionPop) || typeis(r.Action, ActionPush) || typeis(r.Action, include)) ==> jaction != nil && fresh(jaction)
+
+// The definition marshals its own (include-expanded) rule table, and Rules() hands out a copy of that table: every
+// state, each with as many rules (that the copied rules are equal one by one, in order: bounded stand-in of C16).
+//@ func (*StatefulDefinition).MarshalJSON [C16]
+//@   requires d != nil
+//@   before call json.Marshal#1: assert v == iface(d.rules)
+
+//@ func (*StatefulDefinition).Rules [C16]
+//@   requires d != nil
+//@   fresh result
+//@   ensures @allStates result != nil && foralls(s, has(d.rules, s) <==> has(result, s))
+//@   ensures @sameLength foralls(s, has(d.rules, s) ==> len(result[s]) == len(d.rules[s]))
+//@   loop 1 invariant out != nil && fresh(out) && foralls(s, has(out, s) <==> visited(1, s)) && foralls(s, visited(1, s) ==> has(d.rules, s))
+//@   loop 1 invariant foralls(s, visited(1, s) ==> len(out[s]) == len(d.rules[s]))
+//@   loop 2 invariant -1 <= rangeindex && rangeindex < len(rules) && out != nil && fresh(out)
+//@   loop 2 invariant foralls(s, has(out, s) <==> (visited(1, s) || s == state)) && foralls(s, visited(1, s) ==> has(d.rules, s))
+//@   loop 2 invariant foralls(s, visited(1, s) && s != state ==> len(out[s]) == len(d.rules[s]))
+//@   loop 2 invariant len(out[state]) == rangeindex + 1 && forall(k, 0, rangeindex + 1, out[state][k] == rules[k].Rule)
+//@   loop 2 decreases len(rules) - rangeindex
